@@ -185,7 +185,7 @@ def abs_err(e):
     return {"cls": "other:" + type(e).__name__, "msg": safe_str(e)}
 
 
-def observe_stages(schema, text, operation_name, variables, executor="blocking", middlewares=None, document=None):
+def observe_stages(schema, text, operation_name, variables, executor="blocking", middlewares=None, document=None, context=None):
     """
     Run the real stage functions one by one. -> (stages dict for the model, failed stage or None,
     ('internal', stage, exc) if a stage raised something that is not its documented exception).
@@ -229,7 +229,7 @@ def observe_stages(schema, text, operation_name, variables, executor="blocking",
     except Exception as e:  # noqa
         return st, "coerce", ("internal", "coerce", e)
     try:
-        r = execute(schema, doc, operation_name=operation_name, variables=variables, middlewares=middlewares,
+        r = execute(schema, doc, operation_name=operation_name, variables=variables, middlewares=middlewares, context_value=context,
                     executor_cls=BlockingExecutor if executor == "blocking" else Executor)
     except ExecutionError as e:     # e.g. subscription operation (after the proposed fix)
         st["getop"] = abs_err(e)
@@ -459,6 +459,7 @@ def check_case(ctx, case, pending):
     sync_schema, sync_holder = case["_sync"]
     wparams = case.get("world") or {"seed": 0}
     world_s = sync_holder.world = G.World(schema=sync_schema, **wparams)
+    world_s.slow_deep_ms = 0        # the separately observed (blocking) stages need no delays
     # --- stages, observed separately (sync resolvers, blocking executor) ---------------------
     form = case.get("form") or "str"
     subm = submission(text, form)
@@ -466,12 +467,13 @@ def check_case(ctx, case, pending):
         form = "str"
     ctx.stat("form:" + form)
     stages, failed, internal = observe_stages(sync_schema, text, case.get("operation_name"), case.get("variables"), middlewares=mws,
-                                              document=None if form == "str" else submission(text, form))
+                                              document=None if form == "str" else submission(text, form), context=world_s)
     calls_blocking = list(world_s.calls)
     injected = bool(world_s.injected_nonfinite)
     ctx.stat("stage:" + (failed or "executed"))
     # --- the entry point ------------------------------------------------------------------------------
     world = holder.world = G.World(schema=schema, **wparams)
+    kw["context"] = world
     status, res = call_entry(cfg, schema, subm, **kw)
     ctx.count()
     if status == "raised":
@@ -501,6 +503,11 @@ def check_case(ctx, case, pending):
         return sigs
     for sig, d in O.well_formed(resp, text):
         fail(sig, "response is not well-formed (spec 7.1): " + d, {"response": O.enc(resp)})
+    if world is not None and isinstance(resp.get("data"), dict):
+        foreign = [list(p) for p, _t, _n, _o in list(world.calls) if p and p[0] not in resp["data"]]
+        if foreign:
+            ctx.fail("harness:foreign-world-record", "the resolver log of this request contains paths of another request (harness race)",
+                     dict(detail, foreign=foreign[:5]), kind="correspondence")
     has_data = "data" in resp
     if failed in ("parse", "validate") and has_data:
         fail("data-present-after-%s-failure" % failed, "`data` must be omitted when the document failed to parse or validate",
@@ -764,14 +771,16 @@ def install_world_resolvers(schema, holder, asyncio_mode=False):
     from py_gql.schema import ObjectType
 
     def make(ftype, is_async):
-        def run(info):
-            return holder.world.run(info, ftype)
+        # The world of a request travels as its `context` value: a resolver records into the log of ITS OWN request. (Looking the
+        # world up in a shared holder at call time was a race: with ThreadPoolRuntime a request can be answered — a field failed
+        # while being completed — while resolvers of its sub-fields are still queued in the pool; such a late worker then wrote
+        # into the log of the NEXT request and produced a phantom "expected" path.)
         if is_async:
             async def resolver(root, c, info, **args):
-                return run(info)
+                return c.run(info, ftype)
         else:
             def resolver(root, c, info, **args):
-                return run(info)
+                return c.run(info, ftype)
         return resolver
     from py_gql.schema import InterfaceType, UnionType, ScalarType, SPECIFIED_SCALAR_TYPES
 
@@ -924,6 +933,15 @@ def _run(ctx, rng, pending):
         for text in compl:
             for cfg in (CONFIGS if k < 3 else ["blocking", CONFIGS[1 + k % 3]]):
                 check_case(ctx, make_case("completion", BASE_SDL, base, cfg, text, None, None, w, middleware=(k % 3 == 2)), pending)
+    flush(ctx, pending)
+    # LATE WORKERS (stress): ThreadPoolRuntime, slow resolvers deep below fields whose completion fails early: request A is answered
+    # while its workers are still running, request B follows immediately; B's expectations must only come from B's own resolvers
+    lateA = "{ os { id v n { id } } oss { id ns { v } } uss { ... on Obj { id } } }"
+    lateB = "{ us { __typename ... on Obj { id v } } un { ... on Other { z } } sc scs }"
+    for k in range(ctx.n(5, 20)):
+        w = {"seed": 700 + k, "p_raise": 0.15, "p_null": 0.05, "p_null_nn": 0.2, "min_items": 2, "p_complete": 0.9, "slow_deep_ms": 15}
+        for text in (lateA, lateB):
+            check_case(ctx, make_case("late-workers", BASE_SDL, base, "threadpool", text, None, None, w, form="str"), pending)
     flush(ctx, pending)
     # @skip / @include conditions that only fail at EXECUTION time (nullable variable with a default explicitly null, omitted
     # variables, list literal), on fields, inline fragments and spreads, at the root and nested (also below lists)
